@@ -531,6 +531,11 @@ class StdioLayer:
         st['bytes delivered to the client: ' + ('< 1 KiB' if len(out) < 1024 else '< 16 KiB' if len(out) < 16384 else '>= 16 KiB')] += 1
         if any(l.startswith('Y write %d ' % daemon.STDIO_IN) for co in sim['couts'] for l in co):
             V.append(dict(sig='C09 output for the --stdio client was written to its input descriptor', at=len(sim['ops']) - 1))
+        if sim['done'] and not sim['died']:
+            closes = collections.Counter(l for co in sim['couts'] for l in co if l.startswith('Y close 100'))
+            st['ended runs whose two client descriptors were checked to be closed exactly once'] += 1
+            if closes.get('Y close %d' % daemon.STDIO_IN, 0) != 1 or closes.get('Y close %d' % daemon.STDIO_OUT, 0) != 1:
+                V.append(dict(sig='C09 the descriptors of the --stdio client are not closed exactly once each when the daemon ends', at=len(sim['ops']) - 1, closes=dict(closes)))
         if sim['died'] and not diffs:
             V.append(dict(sig='C09 daemon killed in --stdio mode: ' + daemon.death_class(sim['stderr']), at=len(sim['ops']) - 1, detail=sim['stderr'][-800:]))
         if sim['clean'] and sim['done'] and not sim['died']:
